@@ -1,7 +1,7 @@
 (* C06 — property theorems. Statements only, each closed by `exact <lemma>` from Proofs.v, with
    Print Assumptions beneath, and the non-vacuity examples. *)
 From Coq Require Import Permutation.
-From C06 Require Import Model Proofs ProofsQ.
+From C06 Require Import Model CaseDefs Proofs ProofsQ ProofsA ProofsC ProofsL ProofsT.
 Open Scope Z_scope.
 
 (* SamplesContainer.Merge: if container a holds exactly (Total, Sum, Min, Max, NotExists, sample
@@ -57,4 +57,104 @@ Example C06_nonvacuous :
 Proof.
   split; [|reflexivity].
   apply sdesc_merge; repeat apply sdesc_insert; apply sdesc_new.
+Qed.
+
+(* ------------------------------------------------------------------------------------------------
+   The aggregation theorems.  [eval_tree q t] is the executed model: every leaf of t is one fraction,
+   evaluated the way the code does it (token tables, sourced OR trees, ConsumeTokenSource in lock-step
+   with the selected LIDs), inner nodes are AggregatableSamples.Merge in the shape of t.
+   [selected_docs q t] = the documents of ALL fractions that the query selects; [bin_vals]/[bin_ne]/
+   [bin_count]/[expected_ne] are the spec checker's direct computations (CaseDefs.v: filters/counts). *)
+
+(* Mechanism: the lock-step walk over the sourced OR tree finds, for every selected document, exactly
+   the document's own group and field token — the pass of the code equals the direct per-document pass,
+   for all documents (single-valued tokens), all queries. *)
+Theorem C06_lockstep_exact : forall q ds, frac_run q ds = frac_direct q ds.
+Proof. exact ProofsL.frac_run_direct. Qed.
+Print Assumptions C06_lockstep_exact.
+
+(* sum / min / max / avg / quantile of a numeric field, with or without group, with or without
+   interval: for EVERY merge tree and every bin key k, the bin is absent only if no document
+   contributes to it, and otherwise holds exactly Total/Sum/Min/Max/NotExists (and the sample multiset
+   while <= 8096) of the values the selected documents contribute; the global NotExists is exact. *)
+Theorem C06_agg_exact :
+  forall q t, is_field_func (q_func q) = true ->
+    NoDup (map fst (a_bins (eval_tree q t))) /\
+    a_ne (eval_tree q t) = CaseDefs.expected_ne q (ProofsT.selected_docs q t) /\
+    forall k, ProofsA.odesc (collect_samples q) (lookup k (a_bins (eval_tree q t)))
+                (CaseDefs.bin_vals q k (ProofsT.selected_docs q t))
+                (CaseDefs.bin_ne q k (ProofsT.selected_docs q t)).
+Proof. exact ProofsT.agg_exact. Qed.
+Print Assumptions C06_agg_exact.
+
+(* count per group (with the legacy "_not_exists" bin), for every merge tree: a bin exists iff its
+   expected count is positive and then holds exactly that count.  Hypothesis: no document's group token
+   is literally the "_not_exists" token (the code overwrites that bin). *)
+Theorem C06_agg_exact_count :
+  forall q t, q_func q = FCount -> ProofsC.no_netok_group q (ProofsT.selected_docs q t) ->
+    NoDup (map fst (a_bins (eval_tree q t))) /\
+    a_ne (eval_tree q t) = CaseDefs.expected_ne q (ProofsT.selected_docs q t) /\
+    forall k, ProofsC.ocdesc (lookup k (a_bins (eval_tree q t))) (CaseDefs.bin_count q k (ProofsT.selected_docs q t)).
+Proof. exact ProofsT.agg_exact_count_final. Qed.
+Print Assumptions C06_agg_exact_count.
+
+(* unique per group: a bin (an empty container) exists exactly for the group tokens that occur *)
+Theorem C06_agg_exact_unique :
+  forall q t, q_func q = FUnique ->
+    NoDup (map fst (a_bins (eval_tree q t))) /\
+    a_ne (eval_tree q t) = CaseDefs.expected_ne q (ProofsT.selected_docs q t) /\
+    forall k, ProofsC.oudesc (lookup k (a_bins (eval_tree q t))) (ProofsC.ucnt k (ProofsT.selected_docs q t)).
+Proof. exact ProofsT.agg_exact_unique_final. Qed.
+Print Assumptions C06_agg_exact_unique.
+
+(* Any merge order: two merge trees over the same multiset of documents (any split into fractions,
+   any order, any grouping) give bins with the same description, and the same global NotExists. *)
+Theorem C06_any_merge_order :
+  forall q t1 t2 k, is_field_func (q_func q) = true -> Permutation (tree_docs t1) (tree_docs t2) ->
+    let D := ProofsT.selected_docs q t1 in
+    a_ne (eval_tree q t1) = a_ne (eval_tree q t2) /\
+    ProofsA.odesc (collect_samples q) (lookup k (a_bins (eval_tree q t1))) (CaseDefs.bin_vals q k D) (CaseDefs.bin_ne q k D) /\
+    ProofsA.odesc (collect_samples q) (lookup k (a_bins (eval_tree q t2))) (CaseDefs.bin_vals q k D) (CaseDefs.bin_ne q k D).
+Proof. exact ProofsT.any_merge_order. Qed.
+Print Assumptions C06_any_merge_order.
+
+(* Aggregate (getAggBucket) on a bin described by vs: the reported value is sum / min / max / the exact
+   quotient sum/n of vs, NaN for an empty bin; quantiles are Quantile of the bin (see C06_quantile_exact) *)
+Theorem C06_bucket_value_exact :
+  forall q k c s vs ne, sdesc c s vs ne -> is_field_func (q_func q) = true ->
+    b_ne (agg_bucket q k s) = ne /\ b_name (agg_bucket q k s) = snd k /\ b_mid (agg_bucket q k s) = fst k /\
+    (vs = [] -> b_val (agg_bucket q k s) = MNaN) /\
+    (vs <> [] ->
+     match q_func q with
+     | FSum => b_val (agg_bucket q k s) = MNum (Proofs.sum_list vs)
+     | FMin => b_val (agg_bucket q k s) = MNum (Proofs.list_min vs)
+     | FMax => b_val (agg_bucket q k s) = MNum (Proofs.list_max vs)
+     | FAvg => b_val (agg_bucket q k s) = MRat (Proofs.sum_list vs) (N.of_nat (length vs))
+     | FQuantile => b_quants (agg_bucket q k s) = map (quantile s) (q_quants q) /\
+                    b_val (agg_bucket q k s) = match q_quants q with qt :: _ => quantile s qt | [] => MNaN end
+     | _ => True
+     end).
+Proof. exact ProofsT.agg_bucket_exact. Qed.
+Print Assumptions C06_bucket_value_exact.
+
+(* non-vacuity of the aggregation theorems: two fractions, avg with group over a time series; the
+   hypotheses hold and the merged bin of group 1 in bucket 1000 is the one described by the theorem *)
+Example C06_agg_nonvacuous :
+  let q := Query 0 5000 FAvg true 1000 [] 9 in
+  let t := Node (Leaf [Doc 1200 true (Some 1%N) (Some 8); Doc 1300 true None (Some 3)])
+                (Leaf [Doc 1900 true (Some 1%N) (Some (-2)); Doc 1950 false (Some 1%N) (Some 100)]) in
+  is_field_func (q_func q) = true /\
+  CaseDefs.bin_vals q (1000%N, 1%N) (ProofsT.selected_docs q t) = [8; -2] /\
+  lookup (1000%N, 1%N) (a_bins (eval_tree q t)) = Some (Summ (-2) 8 6 2 0 [] false) /\
+  a_ne (eval_tree q t) = 1%N.
+Proof. repeat split. Qed.
+
+Example C06_count_nonvacuous :
+  let q := Query 0 5000 FCount false 0 [] 9 in
+  let t := Node (Leaf [Doc 1200 true (Some 1%N) None; Doc 1300 true None None]) (Leaf [Doc 1900 true (Some 1%N) None]) in
+  ProofsC.no_netok_group q (ProofsT.selected_docs q t) /\
+  CaseDefs.bin_count q (0%N, 1%N) (ProofsT.selected_docs q t) = 2%N /\
+  CaseDefs.bin_count q (0%N, 9%N) (ProofsT.selected_docs q t) = 1%N.
+Proof.
+  split; [|split; reflexivity]. intros d I. simpl in I. destruct I as [<-|[<-|[<-|[]]]]; discriminate.
 Qed.
